@@ -2,6 +2,7 @@ mod alloc;
 mod batch;
 mod exec;
 mod h1;
+mod pc;
 mod resp;
 mod rng;
 mod sock;
@@ -84,6 +85,7 @@ fn main() {
         "C04" => go!(h1::H1Rig { prop: "C04" }),
         "C05" => go!(h1::H1Rig { prop: "C05" }),
         "C06" => go!(h1::H1Rig { prop: "C06" }),
+        "C07" => go!(pc::PcRig),
         _ => {
             eprintln!("unknown property {}", prop);
             std::process::exit(2);
